@@ -16,16 +16,18 @@ fn conversions(ctx: &mut Ctx) {
         if ctx.lite {
             lens = vec![0, 1, 33];
         }
+        // far-from-small lengths (2^10 .. 2^16 bases, 65 .. 2049 words); none under the reduced budgets
+        lens.extend(huge_lengths(ctx, 2));
         // (len, Some(pad)): exact-fit operands — the converted window is the tail of an allocation without spare words
         let plan = exact_plan(ctx, 2, lens);
         for (li, (n, exact_pad)) in plan.into_iter().enumerate() {
-            let pads: Vec<usize> = if let Some(p) = exact_pad { vec![p] } else if ctx.lite { vec![(li + ctx.shard * 3) % 32] } else if ctx.tier == Tier::Thorough { (0..32).collect() } else { (0..32).filter(|o| (o + li) % 3 == 0).collect() };
+            let pads: Vec<usize> = if let Some(p) = exact_pad { vec![p] } else if n > 3000 { vec![li % 32, (li * 7 + 1) % 32] } else if ctx.lite { vec![(li + ctx.shard * 3) % 32] } else if ctx.tier == Tier::Thorough { (0..32).collect() } else { (0..32).filter(|o| (o + li) % 3 == 0).collect() };
             for pad in pads {
                 if ctx.over() {
                     break;
                 }
                 let _fit = exact_pad.map(|_| exact_fit_mode());
-                let x = cover_codes(&mut ctx.rng, d, n);
+                let x = if n > 1100 { structured_codes(&mut ctx.rng, d, n, li + pad) } else { cover_codes(&mut ctx.rng, d, n) };
                 let p = Padded::<Dna>::new(&mut ctx.rng, pad, &x, 2);
                 let s = p.slice();
                 let text = d.text(&x);
